@@ -57,7 +57,9 @@ class Project:
         if rnd.random() < 0.15 and creads:
             creads.append(creads[0])          # duplicate report
         msvc = rnd.random() < 0.2
-        eff = {"kind": "write", "creads": creads, "reads": spell_reads(rnd, creads)}
+        # (one compile in four leaves an existing object file alone when it is re-run, and then
+        # does not rewrite an unchanged depfile either)
+        eff = {"kind": "keep" if rnd.random() < 0.25 else "write", "creads": creads, "reads": spell_reads(rnd, creads)}
         # what the command prints besides its include notes, and where the notes stand
         eff["output"] = rnd.choice(["", "", "c%d.c: warning: unused\n" % i, "first line\nsecond line\n",
                                     "\n\nafter two empty lines\n", "no newline at the end"])
